@@ -1,0 +1,6 @@
+//go:build !verif
+// +build !verif
+
+package tengo
+
+func verifAt(site int, c *Compiled, v *VM) {}
